@@ -51,6 +51,14 @@ def wfViolations (P : Prepared) : List String := Id.run do
             if it.kind != .stageOutput then bad := ("output_kind:" ++ outputNodeId step stage out) :: bad
             else if it.step != step || it.stage != stage then bad := ("output_unamb:" ++ outputNodeId step stage out) :: bad
           | none => pure ()
+  -- WF2.stage_unamb (Arca/Proofs/LoopFinished.lean, `Prepared.StageUnamb`): the stage node id of a declared
+  -- (step, stage) belongs to an item of that step and stage
+  for (step, sts) in P.stages do
+    for (stage, _) in sts do
+      if declares step stage then
+        match lookup (stageNodeId step stage) P.items with
+        | some it => if it.step != step || it.stage != stage then bad := ("stage_unamb:" ++ stageNodeId step stage) :: bad
+        | none => pure ()
   -- WF2 (Arca/Proofs/LoopSafe.lean): what the panic-freedom theorem additionally assumes
   if g.edges.any (fun e => e.2.1 == "input") then bad := "input_no_deps" :: bad
   match lookup "input" P.items with
@@ -79,17 +87,21 @@ def legalEvent (P : Prepared) (s : LoopState) (e : Event) : Bool :=
     | some sts => (lookup stage sts).isSome
     | none => false
   let st (id : String) : Option St := s.dag.statusOf id
-  match e with
-  | .start _ => s.dag.nodes.all (fun n => n.status == .waiting)
-  | .stageChange _ none _ _ => true
-  | .stageChange step (some prev) out _ =>
+  -- the contract of a reported stage end (the same for OnStageChange and OnStepComplete), plus `EventReports`
+  -- (Arca/Proofs/LoopSettle.lean): a stage that declares outputs is reported finished together with one of them
+  let stageEnd (step prev : String) (out : Option (String × Val)) : Bool :=
     declares step prev && st (stageNodeId step prev) == some .waiting &&
     (P.dag.edges.filter (fun ed => ed.2.1 == stageNodeId step prev)).all (fun ed =>
       (ed.2.2 != .and || st ed.1 == some .resolved) && ed.2.2 != .or) &&
     (match out with
-     | none => true
+     | none => (P.outputsOf step prev).isEmpty
      | some (oid, _) => (P.outputsOf step prev).contains oid &&
          (P.outputsOf step prev).all (fun o => st (outputNodeId step prev o) == some .waiting))
+  match e with
+  | .start _ => s.dag.nodes.all (fun n => n.status == .waiting)
+  | .stageChange _ none _ _ => true
+  | .stageChange step (some prev) out _ => stageEnd step prev out
+  | .stepComplete step prev out _ => stageEnd step prev out
   | .stageFail step stage =>
     declares step stage && st (stageNodeId step stage) != some .resolved &&
     (P.outputsOf step stage).all (fun o => st (outputNodeId step stage o) != some .resolved)
